@@ -23,6 +23,25 @@ type gfCase struct {
 	Seed     int64  `json:"seed"`
 	Less     string `json:"less"` // bytes | len | first
 	MaxSize  int    `json:"max_size"`
+	// Pattern: "" = random contents; otherwise the i-th slice is the big-endian encoding of a value
+	// chosen so that the input is already ordered in a particular way (comparison: bytes):
+	// sorted | reverse | equal | runs (ascending runs of Run slices each, every run starting again at 0)
+	Pattern string `json:"pattern,omitempty"`
+	Run     int    `json:"run,omitempty"`
+}
+
+func gfPatternValue(c gfCase, i, n int) uint64 {
+	switch c.Pattern {
+	case "sorted":
+		return uint64(i)
+	case "reverse":
+		return uint64(n - i)
+	case "equal":
+		return 7
+	case "runs":
+		return uint64(i % c.Run)
+	}
+	return 0
 }
 
 func gfLess(kind string) LessFunc {
@@ -62,9 +81,16 @@ func gfRun(c gfCase, dir string) (msg string) {
 	defer func() { _ = b.Release() }()
 	rng := rand.New(rand.NewSource(c.Seed))
 	var want [][]byte
-	for _, n := range c.Lens {
+	for i, n := range c.Lens {
 		s := make([]byte, n)
 		rng.Read(s)
+		if c.Pattern != "" {
+			s = make([]byte, 8+i%5)
+			v := gfPatternValue(c, i, len(c.Lens))
+			for k := 0; k < 8; k++ {
+				s[k] = byte(v >> (8 * (7 - k)))
+			}
+		}
 		want = append(want, s)
 		b.WriteSlice(s)
 	}
@@ -208,6 +234,22 @@ func TestGovcBoundedBuffer(t *testing.T) {
 				break
 			}
 		}
+		// inputs that are already ordered in some way, with run boundaries on and around the sorter's
+		// 1024-slice chunks (a sorter that trusts "looks sorted" or mishandles chunk borders shows here)
+		if r == 0 {
+			type pat struct {
+				p      string
+				run, n int
+			}
+			for pi, pt := range []pat{{"sorted", 0, 2500}, {"reverse", 0, 2500}, {"equal", 0, 1500}, {"runs", 1024, 2048}, {"runs", 1024, 3072}, {"runs", 2048, 4096}, {"runs", 1023, 2100}, {"runs", 1025, 2100}, {"runs", 512, 2048}} {
+				c := gfCase{Mode: []string{"calloc", "mmap"}[pi%2], Capacity: 4096, Auto: 1 << 12, Seed: int64(pi), Less: "bytes", Pattern: pt.p, Run: pt.run, Lens: make([]int, pt.n)}
+				run++
+				if m := gfRun(c, dir); m != "" && !done {
+					fail(c, m)
+					done = true
+				}
+			}
+		}
 		for ci := 0; ci < 20 && !done; ci++ {
 			rng := rand.New(rand.NewSource(seed*37 + int64(r*1000+ci)))
 			c := gfCase{Capacity: 16 << rng.Intn(4), MaxSize: 64 + rng.Intn(400), Seed: rng.Int63()}
@@ -221,5 +263,5 @@ func TestGovcBoundedBuffer(t *testing.T) {
 			}
 		}
 	}
-	fmt.Printf("GOVC-BOUNDED: driver=buffer cases=%d slice_counts=%v modes=calloc,mmap,auto-switch comparisons=bytes,len,first max_size_histories=20x30\n", run, counts)
+	fmt.Printf("GOVC-BOUNDED: driver=buffer cases=%d slice_counts=%v modes=calloc,mmap,auto-switch comparisons=bytes,len,first ordered_inputs=sorted,reverse,equal,runs(512,1023,1024,1025,2048) max_size_histories=20x30\n", run, counts)
 }
